@@ -160,10 +160,25 @@ class Server:
             try:
                 s = socket.create_connection(("127.0.0.1", self.port), timeout=0.5)
                 s.close()
+                self._settle()
                 return True
             except OSError:
                 time.sleep(0.05)
         return False
+
+    def _settle(self, limit=6.0):
+        """The socket is bound and listening well before start-up has finished (TLS, detach, chroot, drop).
+        Wait for the end of start-up: the banner in the log, or the kernel showing the configured jail and ids."""
+        end = time.time() + limit
+        t0 = time.time()
+        while time.time() < end and self.proc.poll() is None:
+            if b"Running." in self.log():
+                return
+            jailed = (not self.mode.get("chroot")) or self.root_of_process() == os.path.realpath(self.root)
+            dropped = (not self.mode.get("drop")) or self.ids()[0] == (NOBODY_UID,) * 3
+            if jailed and dropped and time.time() - t0 > (0.6 if (self.mode.get("chroot") or self.mode.get("drop")) else 1.2):
+                return
+            time.sleep(0.05)
 
     def alive(self):
         return self.proc.poll() is None
